@@ -10,6 +10,7 @@ pub struct TermGen {
     pub holes: bool,      // may produce unresolved holes
     pub max_var: usize,   // free variables up to scope + max_var
     pub big_lits: bool,
+    pub closed: bool,     // variables strictly below the scope
 }
 
 impl TermGen {
@@ -41,6 +42,10 @@ impl TermGen {
             5 | 6 => self.literal(rng),
             7 if self.holes => mk::hole(rng.below(scope + 2)),
             _ => {
+                if self.closed {
+                    if scope == 0 { return self.literal(rng); }
+                    return mk::var(NAMES[rng.below(NAMES.len())], rng.below(scope));
+                }
                 let i = rng.below(scope + self.max_var + 1);
                 mk::var(NAMES[rng.below(NAMES.len())], i)
             }
